@@ -359,6 +359,13 @@ func run(r *lib.Run) {
 		}(specs[i])
 	}
 	wg.Wait()
+	// directed schedule: SYN before accept (see directed.go); both version sets
+	var dwg sync.WaitGroup
+	for d := 0; d < r.Pick(4, 24); d++ {
+		dwg.Add(1)
+		go func(d int) { defer dwg.Done(); directedSynBeforeAccept(r, d) }(d)
+	}
+	dwg.Wait()
 	r.Extra("exchanges_by_pairing_and_policy", pairSeen)
 	r.Extra("worlds", len(specs))
 	failMu.Lock()
